@@ -98,7 +98,8 @@ def shape_specs(node):
     a = node['a']
     t = node['tag']
     if t == 'path':
-        return [list(s) for s in node['segs']], node.get('closed', False)
+        # (SVG 1.1 F.6.2: an arc whose end points are identical is omitted entirely)
+        return [list(s) for s in node['segs'] if not (s[0] == 'A' and s[1] == s[6])], node.get('closed', False)
     if t == 'line':
         return [['L', [a['x1'], a['y1']], [a['x2'], a['y2']]]], False
     if t in ('polyline', 'polygon'):
